@@ -345,6 +345,7 @@ fn search(unit: &Value, out: &mut UnitResult) {
     let mut stack: Vec<Vec<Ev>> = vec![first];
     let mut outcomes: BTreeSet<String> = BTreeSet::new();
     while let Some(seq) = stack.pop() {
+        crate::pool::crumb(|| format!("in-flight limiter events {:?}", seq.iter().map(ev_json).collect::<Vec<_>>()));
         let (mut w, r) = replay_seq(limit, block, strategy, &seq);
         out.transitions += 1;
         let rp = json!({"unit": unit, "events": seq.iter().map(ev_json).collect::<Vec<_>>()});
